@@ -84,7 +84,8 @@ fn nodes<F: Function<Trace = VmTrace>>(cx: &mut Cx, backend: &str, f: &F, p: &Pr
         let mut enc = vec![];
         // extreme magnitudes overflow / underflow the f32 chain rule: outside "within tolerance"
         let tame = |v: f32| v == 0.0 || (v.abs() > 1.0e-12 && v.abs() < 1.0e12);
-        let mut finite = fa.is_finite() && fb.is_finite() && tame(a.v) && tame(b.v) && tame(vref);
+        let mut finite = fa.is_finite() && fb.is_finite() && tame(a.v) && tame(b.v) && tame(vref)
+            && (0..3).all(|k| tame(a.d(k)) && (g.class == 3 || tame(b.d(k))));
         for k in 0..3 {
             let (ta, tb) = (fa * a.d(k) as f64, if g.class == 3 { 0.0 } else { fb * b.d(k) as f64 });
             let r = ta + tb;
